@@ -1,3 +1,4 @@
+import MemcVerif.Proofs.Policy
 import MemcVerif.Proofs.Frame
 import MemcVerif.Proofs.Link
 /-!
@@ -374,6 +375,21 @@ example : Batch.OK 1000 ⟨3, [(exSet, parseHeader exSet)], [.set (parseHeader e
     subst hf
     exact ⟨⟨by decide, rfl⟩, by decide⟩
 
+/-- **read-your-writes behind the eviction policy**: whatever the memory limit, the accounted usage and the victims the
+    store's own eviction takes, a store (no CAS) is acknowledged and an immediate retrieval returns exactly its value and
+    flags — the store's record is never among its own victims -/
+theorem C01_read_your_writes_under_policy (p : Policy) (now : Nat) (k : Key) (v : Bytes) (f ttl : Nat) :
+    (p.set now k (Record.new v 0 f ttl)).2 = .ok p.inner.casId ∧
+    ((p.set now k (Record.new v 0 f ttl)).1.get now k).2 = .ok ⟨⟨now, p.inner.casId, f, ttl⟩, v⟩ := by
+  obtain ⟨hack, hl⟩ := policy_set_cas0 p now k (Record.new v 0 f ttl) (by simp [Record.new, Meta.new])
+  refine ⟨hack, ?_⟩
+  simp only [Policy.get]
+  rw [MemStore.get_result, MemStore.vis_def, hl]
+  have : (stamp (Record.new v 0 f ttl) p.inner.casId now).expired now = false := by
+    simp [Record.expired, stamp, Record.new, Meta.new]; omega
+  simp only [stamp, Record.new, Meta.new] at this ⊢
+  simp [this]
+
 end Memc
 
 #print axioms Memc.C01_counter_pos_init
@@ -388,3 +404,4 @@ end Memc
 #print axioms Memc.runOps_append
 #print axioms Memc.C01_wire_history
 #print axioms Memc.C01_wire_read_your_writes
+#print axioms Memc.C01_read_your_writes_under_policy
